@@ -349,6 +349,19 @@ HDR = ('From Coq Require Import Reals List ZArith Lra.\nFrom Interval Require Im
 PREC = 200
 
 
+def run_files(pid, files, timeout=900):
+    """run_case_files; files that failed only because a library of the dependency cone was being
+    rebuilt by a concurrent check (thorough tier deletes and rebuilds .vo files) are retried"""
+    res = run_case_files(pid, files, timeout=timeout)
+    for attempt in range(4):
+        again = [(n, t) for n, t in files if res[n][0] != 0 and ('Cannot find library' in res[n][1] or 'Compiled library' in res[n][1] or 'bad version number' in res[n][1])]
+        if not again:
+            break
+        time.sleep(30)
+        res.update(run_case_files(pid, again, timeout=timeout))
+    return res
+
+
 def eval_script(c, k):
     """tactic establishing  <model expression> = ?r  for a mat2X case through the evaluation lemmas"""
     g, check, rows, cols = c['g'], c['check'], c['rows'], c['cols']
@@ -395,7 +408,7 @@ def run_goals(pid, cases, per_file, tag):
             conj = ' /\\ '.join('Rabs (nth %d r 0 - %s) <= %s' % (i, rlit(v), rlit(t)) for i, v, t in c['comps'])
             txt += goal_text(c, conj, c['idx'])
         files.append(('%s1_%03d' % (tag, k), txt))
-    res = run_case_files(pid, files, timeout=per_file * 260 + 300)
+    res = run_files(pid, files, timeout=per_file * 260 + 300)
     ok, notok, broken = set(), set(), []
     for name, (rc, out) in res.items():
         t = parse_tags(out)
@@ -414,7 +427,7 @@ def run_goals(pid, cases, per_file, tag):
                 enc[code] = (idx, i)
                 goals.append(goal_text(c, '%s < Rabs (nth %d r 0 - %s)' % (rlit(t), i, rlit(v)), code))
         files2 = [('%s2_%03d' % (tag, k), HDR + ''.join(sh)) for k, sh in enumerate(shard(goals, per_file))]
-        res2 = run_case_files(pid, files2, timeout=per_file * 260 + 300)
+        res2 = run_files(pid, files2, timeout=per_file * 260 + 300)
         proved = set()
         for name, (rc, out) in res2.items():
             proved.update(parse_tags(out)['OK'])
@@ -454,7 +467,7 @@ def enclosure_block(ctx, pp, torch):
             dnames = ('float64', 'float32') if (ctx.thorough or (g == 'SO3' and kind in ('c0', 'c1', 'c2', 'c3', 'pi'))) else (('float64',) if n % 4 else ('float32',))
             for dname in dnames:
                 plan.append((g, kind, dname, lays[g][n % 3], n % 3 == 0, 'from_matrix' if n % 4 == 1 else 'direct'))
-    extra = {'SO3': ctx.scale(10, 600), 'SE3': ctx.scale(4, 300), 'RxSO3': ctx.scale(4, 200), 'Sim3': ctx.scale(6, 300)}
+    extra = {'SO3': ctx.scale(10, 400), 'SE3': ctx.scale(4, 200), 'RxSO3': ctx.scale(4, 150), 'Sim3': ctx.scale(6, 200)}
     for g in GROUPS:
         for _ in range(extra[g]):
             plan.append((g, rng.choice(QKINDS), 'float64' if rng.random() < 0.65 else 'float32', rng.choice(lays[g]),
@@ -517,7 +530,7 @@ def enclosure_block(ctx, pp, torch):
         cases.append(dict(idx=i, kind='mat2x', via=via, g=g, check=check, rows=rows, cols=cols, names=names, inputs=inputs,
                           expr=expr, comps=comps, k=k, sb=sb))
     # euler2SO3 and euler
-    ne = ctx.scale(16, 400)
+    ne = ctx.scale(16, 300)
     for j in range(ne):
         dname = 'float64' if rng.random() < 0.7 else 'float32'
         eps = feps(dname)
@@ -549,7 +562,7 @@ def enclosure_block(ctx, pp, torch):
         meta.append(dict(kind='e2s', dtype=dname, e=e, impl=out))
         cases.append(dict(idx=i, kind='e2s', names=names, inputs=e, expr='euler2SO3_l [x0; x1; x2]',
                           comps=[(c, out[c], K_EPS * eps) for c in range(4)]))
-    nu = ctx.scale(30, 500)
+    nu = ctx.scale(30, 350)
     ek = ['uniform', 'uniform', 'near-pi', 'pi', 'axis', 'gimbal', 'gimbal-near', 'flag-boundary', 'identity', 'nonunit']
     for j in range(nu):
         dname = 'float64' if rng.random() < 0.7 else 'float32'
@@ -800,7 +813,7 @@ def exact_block(ctx, pp, torch):
     shapes = [(), (1,), (3,), (2, 3), (3, 3), (2, 1), (1, 2), (0,), (2, 0), (2, 3, 4), (2, 2, 2), (1, 1), (4, 1, 1), (3, 1, 3), (5,), (2, 2)]
     files.append(('shape_000', LIE_HEADER.replace('Model.LieGroup.', 'Model.LieGroup Model.Convert.') +
                   'Eval vm_compute in map (fun B => broadcastable (B ++ [1%%nat]) B) %s.\n' % coq_list(natl(s) for s in shapes)))
-    res = run_case_files('C11', files)
+    res = run_files('C11', files)
     for name, (rc, out) in sorted(res.items()):
         ev = parse_evals(out)
         if rc != 0 or len(ev) != 1:
@@ -952,7 +965,7 @@ def code_block(ctx, pp, torch):
                     f = rng.choice([0.5, 1.0, 2.0])
                     add(g, True, [[f, f * a, 0.0], [0.0, f, 0.0], [0.0, 0.0, f]], 'shear')
     files = [('code_%03d' % k, HDR + ''.join(sh)) for k, sh in enumerate(shard(goals, 8))]
-    res = run_case_files('C11', files, timeout=2000)
+    res = run_files('C11', files, timeout=2000)
     okset = set()
     for name, (rc, out) in res.items():
         okset.update(parse_tags(out)['OK'])
